@@ -1,11 +1,292 @@
-/- C08 — executable model (stub; filled in by the property's owner). -/
-import Mahotas.Model.Border
-import Mahotas.Model.DType
+/-
+C08 — executable model of the *accessor layer* of `mahotas/numpypp/array.hpp`.
+
+Every native kernel touches its array arguments only through a handful of accessors:
+`iterator_base` (constructor computing `steps_`, `operator++`), `at(pos)` / `data(pos)`
+(`PyArray_GetPtr`), `at_flat(p)` (as repaired: `p /= dim(d)`), `pos_to_flat`, `flat_to_pos`,
+and the row pointer idiom `data(y) + x*step`.  They are transliterated here over *address-level
+views*: a base offset, a shape and element strides that may be negative or non-monotone
+(exactly what numpy hands to the C++ for Fortran, strided, reversed, offset, transposed views).
+
+Addresses are element offsets (`Int`) into one flat memory; `sizeof(BaseType)` is divided out as
+the C++ does.  No Mathlib here (linked into the driver).
+-/
+import Mahotas.Model.Basic
 namespace Mahotas.C08
 open Mahotas
 
+/-- an address-level view of an n-D array: what `PyArrayObject` gives the C++ -/
+structure View where
+  base    : Int
+  shape   : List Nat
+  strides : List Int          -- element strides (bytes / itemsize), one per axis
+  carray  : Bool := false     -- `PyArray_ISCARRAY`: C-contiguous (aligned, writeable)
+deriving Repr, DecidableEq
+
+/-- `Σ stride_i * pos_i` -/
+def dot : List Int → List Nat → Int
+  | s :: ss, p :: ps => s * (p : Int) + dot ss ps
+  | _, _ => 0
+
+/-- **the meaning of a view**: the address of the logical element at `pos` -/
+def View.addr (v : View) (pos : List Nat) : Int := v.base + dot v.strides pos
+
+/-- strides of a C-contiguous array of this shape -/
+def cStrides : List Nat → List Int
+  | [] => []
+  | _ :: ds => (shapeSize ds : Int) :: cStrides ds
+
+/-! ### `iterator_base` -/
+
+/-- the constructor's loop, axes already reversed (fastest axis first):
+    `steps_[i] = stride - cummul; cummul *= dim; cummul += steps_[i]*dim` -/
+def mkSteps : List Int → List Nat → Int → List Int
+  | s :: ss, d :: ds, cum => (s - cum) :: mkSteps ss ds (cum * (d : Int) + (s - cum) * (d : Int))
+  | _, _, _ => []
+
+/-- iterator state: `data_`, `steps_`, `dimensions_`, `position_` (all in *reversed* axis order,
+    as in the C++: "This is not actually the position we are at, but the reverse") -/
+structure Iter where
+  data  : Int
+  steps : List Int
+  dims  : List Nat
+  pos   : List Nat
+deriving Repr, DecidableEq
+
+def Iter.begin (v : View) : Iter :=
+  { data := v.base
+    steps := mkSteps v.strides.reverse v.shape.reverse 0
+    dims := v.shape.reverse
+    pos := v.shape.reverse.map (fun _ => 0) }
+
+/-- the loop of `operator++` over the (reversed) axes -/
+def incrGo : List Int → List Nat → List Nat → Int → List Nat × Int
+  | st :: sts, d :: ds, p :: ps, data =>
+      let data := data + st
+      if p + 1 ≠ d then ((p + 1) :: ps, data)
+      else
+        let r := incrGo sts ds ps data
+        (0 :: r.1, r.2)
+  | _, _, ps, data => (ps, data)
+
+def Iter.incr (it : Iter) : Iter :=
+  let r := incrGo it.steps it.dims it.pos it.data
+  { it with pos := r.1, data := r.2 }
+
+def Iter.incrN (it : Iter) : Nat → Iter
+  | 0 => it
+  | k + 1 => (it.incrN k).incr
+
+/-- `iterator_base::position()`: the stored position, reversed back -/
+def Iter.position (it : Iter) : List Nat := it.pos.reverse
+
+/-! ### positional and flat access -/
+
+/-- `array_base::at(pos)` / `data(pos)`: `PyArray_GetPtr` = `data + Σ pos[i]*strides[i]` -/
+def View.at (v : View) (pos : List Nat) : Int := v.base + dot v.strides pos
+
+/-- the loop of `at_flat` (axes reversed: `for d = nd-1 … 0`): `c = p % dim(d); p /= dim(d); base += c*stride(d)` -/
+def atFlatGo : List Nat → List Int → Nat → Int → Int
+  | d :: ds, s :: ss, p, b => atFlatGo ds ss (p / d) (b + ((p % d : Nat) : Int) * s)
+  | _, _, _, b => b
+
+/-- `aligned_array::at_flat(p)` as repaired (`if (is_carray_) return data()[p];` then the loop) -/
+def View.atFlat (v : View) (p : Nat) : Int :=
+  if v.carray then v.base + (p : Int) else atFlatGo v.shape.reverse v.strides.reverse p v.base
+
+/-- the loop of `at_flat` **before** the repair (`p /= dim(d-1)` — pinned tree); kept so that the
+    defect can be exhibited as a theorem about a definition -/
+def atFlatOldGo : List Nat → List Int → Nat → Int → Int
+  | d :: ds, s :: ss, p, b => atFlatOldGo ds ss (p / (ds.headD d)) (b + ((p % d : Nat) : Int) * s)
+  | _, _, _, b => b
+
+/-- `pos_to_flat`: `res += pos[d]*cummul; cummul *= dim(d)` for `d = nd-1 … 0` (axes reversed) -/
+def posToFlatGo : List Nat → List Int → Int → Int
+  | d :: ds, p :: ps, cum => p * cum + posToFlatGo ds ps (cum * (d : Int))
+  | _, _, _ => 0
+
+def View.posToFlat (v : View) (pos : List Int) : Int := posToFlatGo v.shape.reverse pos.reverse 1
+
+/-- `flat_to_pos` loop (axes reversed, C `%` and `/` truncate towards zero); returns the reversed
+    position and what is left of `p` -/
+def flatToPosGo : List Nat → Int → List Int × Int
+  | d :: ds, p =>
+      let r := flatToPosGo ds (Int.tdiv p (d : Int))
+      (Int.tmod p (d : Int) :: r.1, r.2)
+  | [], p => ([], p)
+
+/-- `flat_to_pos(p)`, including `if (p) res.position_[0] += p * dim(0)` -/
+def View.flatToPos (v : View) (p : Int) : List Int :=
+  let r := flatToPosGo v.shape.reverse p
+  match r.1.reverse, v.shape with
+  | x :: xs, d0 :: _ => (if r.2 ≠ 0 then x + r.2 * (d0 : Int) else x) :: xs
+  | l, _ => l
+
+/-- the 2-D row idiom `data(y) + x*step` (`PyArray_GETPTR1` then pointer arithmetic with `stride(1)`) -/
+def View.rowPtr (v : View) (y x : Nat) : Int :=
+  match v.strides with
+  | s0 :: s1 :: _ => v.base + (y : Int) * s0 + (x : Int) * s1
+  | _ => v.base
+
+/-! ### reading through the accessors (memory = function from address to value) -/
+
+def readIter {α} (mem : Int → α) (v : View) (k : Nat) : α := mem ((Iter.begin v).incrN k).data
+def readAtFlat {α} (mem : Int → α) (v : View) (p : Nat) : α := mem (v.atFlat p)
+def readAt {α} (mem : Int → α) (v : View) (pos : List Nat) : α := mem (v.at pos)
+
+/-- the logical content of a view of a memory, in C order -/
+def logical {α} (mem : Int → α) (v : View) : List α :=
+  (List.range (shapeSize v.shape)).map (fun k => mem (v.addr (unravel v.shape k)))
+
+/-! ### one complete kernel over views: `labeled_foldl` of `_labeled.cpp`
+
+`for (i = 0; i != N; ++i, ++iterator, ++literator) if (0 <= *literator < maxlabel)
+ result[*literator] = f(*iterator, result[*literator]);` after `std::fill(result, result+maxlabel, start)`. -/
+
+/-- the loop body on the logical sequences of values and labels -/
+def labeledFoldList {α} (f : α → α → α) (start : α) (maxlabel : Nat) (vals : List α) (labels : List Int) : Array α :=
+  (vals.zip labels).foldl
+    (fun (res : Array α) (p : α × Int) =>
+      if 0 ≤ p.2 ∧ p.2 < (maxlabel : Int) then res.modify p.2.toNat (fun r => f p.1 r) else res)
+    (Array.replicate maxlabel start)
+
+/-- the kernel as the C++ runs it: both arrays read through their iterators, step by step -/
+def labeledFoldView {α} (f : α → α → α) (start : α) (maxlabel : Nat)
+    (mA : Int → α) (vA : View) (mL : Int → Int) (vL : View) : Array α :=
+  let n := shapeSize vA.shape
+  labeledFoldList f start maxlabel ((List.range n).map (readIter mA vA)) ((List.range n).map (readIter mL vL))
+
+/-! ### machine-level detail: `stride()` divides by `sizeof` in *unsigned* arithmetic
+
+`PyArray_STRIDE(a,i)/sizeof(T)` has type `size_t`: a negative byte stride becomes `2^64 - |s|`
+before the division.  With a power-of-two item size dividing the stride the quotient, multiplied
+back in wrapping pointer arithmetic, is the signed element stride again. -/
+
+def two64 : Nat := 18446744073709551616
+
+/-- the byte offset the C++ adds for `c` steps along an axis with byte stride `sb`, item size `sz`:
+    `c * ((size_t)sb / sz)` elements = that many `* sz` bytes, modulo `2^64` -/
+def unsignedStepBytes (sb : Int) (sz c : Nat) : Nat :=
+  (c * ((sb % (two64 : Int)).toNat / sz) * sz) % two64
+
+/-! ### Python-side normalisation: which numpy call stands between the user's array and a native guard
+
+The native entry points of `_labeled`, `_histogram`, `_convex` demand `PyArray_ISCARRAY` (C-contiguous,
+aligned, writeable).  What the wrapper calls first decides whether a Fortran / strided / read-only view
+of valid data reaches them in acceptable form or turns into an exception. -/
+
+/-- the flags of an array that matter here; `fOrder`: the axis order is Fortran-like (what
+`order='K'` preserves in a copy) -/
+structure Flags where
+  ccontig   : Bool
+  aligned   : Bool
+  writeable : Bool
+  fOrder    : Bool
+deriving DecidableEq, Repr
+
+/-- a freshly allocated C-ordered array -/
+def Flags.fresh : Flags := { ccontig := true, aligned := true, writeable := true, fOrder := false }
+
+/-- `PyArray_ISCARRAY` -/
+def Flags.isCArray (f : Flags) : Bool := f.ccontig && f.aligned && f.writeable
+
+inductive Norm
+  | ascontiguousarray     -- `np.ascontiguousarray(a)`: the array itself when already C-contiguous
+  | requireCAW            -- `np.require(a, requirements='CAW')`
+  | requireCW             -- `np.require(a, requirements='CW')`
+  | arrayC                -- `np.array(a, order='C')`: always a fresh C-ordered copy
+  | arrayK                -- `np.array(a)` (order='K'): a fresh copy that keeps a Fortran-like axis order
+  | asanyarray            -- no normalisation
+deriving DecidableEq, Repr
+
+def Norm.apply : Norm → Flags → Flags
+  | .ascontiguousarray, f => if f.ccontig then f else Flags.fresh
+  | .requireCAW, f => if f.ccontig && f.aligned && f.writeable then f else Flags.fresh
+  | .requireCW, f => if f.ccontig && f.writeable then f else Flags.fresh
+  | .arrayC, _ => Flags.fresh
+  | .arrayK, f => { Flags.fresh with ccontig := !f.fOrder, fOrder := f.fOrder }
+  | .asanyarray, f => f
+
+def Norm.ofString : String → Option Norm
+  | "ascontiguousarray" => some .ascontiguousarray
+  | "require:CAW" => some .requireCAW
+  | "require:CW" => some .requireCW
+  | "array:C" => some .arrayC
+  | "array:K" => some .arrayK
+  | "asanyarray" => some .asanyarray
+  | _ => none
+
+/-- does the composition *normalisation → native ISCARRAY guard* accept an array with these flags? -/
+def wrapperAccepts (n : Norm) (f : Flags) : Bool := (n.apply f).isCArray
+
+/-! ### purity: which buffer an in-place native kernel receives
+
+`haar/ihaar/daubechies/idaubechies` (through `_wavelet_array`), `relabel/remove_regions` (through
+`_as_labeled`) and `surf.integral` call native kernels that overwrite their argument. -/
+
+inductive Target
+  | user    -- the caller's own array
+  | copy    -- a fresh array produced by `copy()`, `astype(...)` or `np.array(...)`
+deriving DecidableEq, Repr
+
+/-- numpy calls that always return a fresh array -/
+def producesCopy : String → Bool
+  | "copy" => true
+  | "astype" => true
+  | "array" => true
+  | _ => false
+
+/-- the wrapper pattern `if not flag: a = <copying call>(a)`; otherwise the user's array goes through -/
+def inplaceTarget (flag : Bool) (calls : List String) : Target :=
+  if !flag && calls.all producesCopy && !calls.isEmpty then .copy else .user
+
+/-! ### driver -/
+
+def viewOf (a : Args) : View :=
+  { base := a.int "base", shape := a.nats "shape", strides := a.ints "strides",
+    carray := a.nat "carray" == 1 }
+
+/-- the addresses the iterator visits: `data_` after `k = 0 … size-1` increments (the very `incrN` the theorems are about) -/
+def iterAddrs (v : View) : List Int :=
+  (List.range (shapeSize v.shape)).map fun k => ((Iter.begin v).incrN k).data
+
 def handle (a : Args) : String :=
   match a.str "kind" with
+  | "view" =>
+    let v := viewOf a
+    let n := shapeSize v.shape
+    let ks := List.range n
+    let spec := ks.map (fun k => v.addr (unravel v.shape k))
+    let it := iterAddrs v
+    let af := ks.map v.atFlat
+    let p2f := ks.map (fun k => v.posToFlat (unravelI v.shape k))
+    let f2p := ks.map (fun (k : Nat) => decide (v.flatToPos (Int.ofNat k) = unravelI v.shape k))
+    let row := match v.shape with
+      | [h, w] => (List.range h).flatMap (fun y => (List.range w).map (fun x => v.rowPtr y x))
+      | _ => []
+    s!"spec={showInts spec} iter={showInts it} atflat={showInts af} p2f={showInts p2f} f2p={showBools f2p} row={showInts row}"
+  | "oldatflat" =>
+    let v := viewOf a
+    let ks := List.range (shapeSize v.shape)
+    s!"old={showInts (ks.map (fun p => atFlatOldGo v.shape.reverse v.strides.reverse p v.base))} spec={showInts (ks.map (fun k => v.addr (unravel v.shape k)))}"
+  | "lsum" =>
+    let vA : View := { base := a.int "abase", shape := a.nats "shape", strides := a.ints "astrides" }
+    let vL : View := { base := a.int "lbase", shape := a.nats "shape", strides := a.ints "lstrides" }
+    let amem := (a.ints "amem").toArray
+    let lmem := (a.ints "lmem").toArray
+    let mA : Int → Int := fun ad => amem.getD ad.toNat 0
+    let mL : Int → Int := fun ad => lmem.getD ad.toNat 0
+    let r := labeledFoldView (fun (x r : Int) => x + r) 0 (a.nat "maxlabel") mA vA mL vL
+    s!"sum={showInts r.toList}"
+  | "norm" =>
+    match Norm.ofString (a.str "norm") with
+    | none => "error=unknown-norm"
+    | some n =>
+      let f : Flags := { ccontig := a.nat "c" == 1, aligned := a.nat "al" == 1, writeable := a.nat "w" == 1, fOrder := a.nat "fo" == 1 }
+      let r := n.apply f
+      s!"c={if r.ccontig then 1 else 0} al={if r.aligned then 1 else 0} w={if r.writeable then 1 else 0} accepts={if wrapperAccepts n f then 1 else 0}"
+  | "ustep" =>
+    s!"bytes={unsignedStepBytes (a.int "sb") (a.nat "sz") (a.nat "c")}"
   | k => s!"error=unknown-kind-{k}"
 
 end Mahotas.C08
